@@ -107,7 +107,7 @@ class Driver:
 
     def step(self, op=None):
         h, rng = self.h, self.rng
-        ops = ["NewArr", "NewTs", "NewRec", "CopyRec", "CopyRec", "CopyTs", "Split", "InPlace", "InPlace", "InPlace", "InPlace",
+        ops = ["NewArr", "NewTs", "NewRec", "CopyRec", "CopyRec", "CopyTs", "Split", "SplitTs", "TsInPlace", "InPlace", "InPlace", "InPlace", "InPlace",
                "Edit", "Edit", "Edit", "Save", "Save", "Load", "Load"]
         op = op or ops[rng.randint(len(ops))]
         if op == "NewArr" or not self.live:
@@ -187,6 +187,34 @@ class Driver:
                     self.live[i], self.kind[i] = wdw, "rec"
                     self.w.add(i, "rec", rec_slots(wdw))
             return self.log("Split", dict(src=s), ids, f)
+        if op == "SplitTs":
+            s = self.pick("ts")
+            if s is None or self.live[s].n_samples < 24:
+                return
+            L = float(rng.choice([0.1, 0.2]))
+            nw = int(self.live[s].n_samples / int(round(L / 0.01)))
+            ids = [self.nid("t") for _ in range(nw)]
+
+            def f():
+                wins = self.live[s].split(L)
+                assert len(wins) == len(ids), (len(wins), len(ids))
+                for i, wdw in zip(ids, wins):
+                    self.live[i], self.kind[i] = wdw, "ts"
+                    self.w.add(i, "ts", ts_slots(wdw))
+            return self.log("SplitTs", dict(src=s), ids, f)
+        if op == "TsInPlace":          # taper / detrend / trim of a bare TimeSeries (e.g. a window of a split)
+            o = self.pick("ts")
+            if o is None:
+                return
+            t_ = self.live[o]
+            what = str(rng.choice(["taper", "detrend"]))
+
+            def f():
+                if what == "taper":
+                    t_.window("tukey", 0.5)
+                else:
+                    t_.detrend("constant")
+            return self.log("InPlaceTs", dict(o=o), [], f, what=what)
         if op == "InPlace":
             o = self.pick("rec")
             if o is None:
